@@ -28,9 +28,16 @@ type c20Case struct {
 	Repeat int
 	Echo   string // how the peer answers a Close frame: echo | none | invalid
 	// ViaNetConn: NetConn gets an application-defined parent context (for which context.WithCancel needs
-	// a goroutine of its own per derived context), and the user's final call is the net.Conn's Close.
+	// a goroutine of its own per derived context). NCFinal says whose Close the user's final call is: the
+	// net.Conn's own, or (false) the Conn's as for every other case - a server that hands the net.Conn to
+	// a library and closes the Conn itself when the request ends.
 	ViaNetConn bool
+	NCFinal    bool
 }
+
+// c20App is the application's context of the case being run: made inside the case's bubble before
+// the first repetition, ended after the census of the last.
+var c20App appContext
 
 // appContext is a context.Context that the context package does not know: a framework's own type.
 type appContext struct{ done chan struct{} }
@@ -104,8 +111,7 @@ func runC20Once(t fataler, c c20Case, iter int) string {
 	base := context.Background()
 	var ncParent context.Context = base
 	if c.ViaNetConn {
-		app := appContext{done: make(chan struct{})} // lives as long as the "application": longer than this connection
-		ncParent = app
+		ncParent = c20App // lives as long as the "application": longer than this connection
 	}
 	closeReadOn := false
 	var nc interface {
@@ -338,7 +344,7 @@ func runC20Once(t fataler, c c20Case, iter int) string {
 	e.sleep(time.Duration(iter%3) * time.Second)
 	// --- the user closes, as every user must ---
 	closed := e.Call(func() {
-		if c.ViaNetConn && nc != nil {
+		if c.ViaNetConn && c.NCFinal && nc != nil {
 			nc.Close() // the net.Conn's own Close: it ends the connection and everything NetConn started
 			return
 		}
@@ -390,9 +396,14 @@ func TestC20(t *testing.T) {
 		c.Final = rapid.SampledFrom([]string{"Close", "Close", "CloseNow", "CloseNow", "Close-badcode", "Close-longreason"}).Draw(rt, "final")
 		c.Repeat = rapid.SampledFrom([]int{20, 50}).Draw(rt, "repeat")
 		c.Echo = rapid.SampledFrom([]string{"echo", "echo", "none", "invalid"}).Draw(rt, "peerEcho")
-		c.ViaNetConn = rapid.IntRange(0, 2).Draw(rt, "viaNetConn") == 0
+		via := rapid.IntRange(0, 3).Draw(rt, "viaNetConn")
+		c.ViaNetConn, c.NCFinal = via <= 1, via == 0
 		var msg string
 		rapid.SyncTest(rt, func(rt *rapid.T) {
+			c20App = appContext{done: make(chan struct{})}
+			// ended last of all, so that what a connection left waiting for it is counted by the census
+			// below and only then let go (a bubble must not end with goroutines blocked in it)
+			defer func() { close(c20App.done); synctest.Wait() }()
 			before, total := len(libGoroutines()), runtime.NumGoroutine()
 			for it := 0; it < c.Repeat && msg == ""; it++ {
 				msg = runC20Once(rt, c, it)
@@ -412,7 +423,7 @@ func TestC20(t *testing.T) {
 			}
 		})
 		nt := hasCR || (c.Ending != "close" && c.Ending != "closenow")
-		rec.Case(nt, fmt.Sprintf("%s|%v|%s|%s|%s|%v", c.Mode.Name, c.Ops, c.Ending, c.Final, c.Echo, c.ViaNetConn), "ending:"+c.Ending, "final:"+c.Final, fmt.Sprintf("closeread:%v", hasCR), "peer-echo:"+c.Echo)
+		rec.Case(nt, fmt.Sprintf("%s|%v|%s|%s|%s|%v|%v", c.Mode.Name, c.Ops, c.Ending, c.Final, c.Echo, c.ViaNetConn, c.NCFinal), fmt.Sprintf("netconn-of-app-context:%v/own-close:%v", c.ViaNetConn, c.NCFinal), "ending:"+c.Ending, "final:"+c.Final, fmt.Sprintf("closeread:%v", hasCR), "peer-echo:"+c.Echo)
 		rec.Evals(int64(c.Repeat - 1))
 		if rec.WantSample() {
 			rec.Sample(fmt.Sprintf("%+v", c))
